@@ -52,6 +52,8 @@ def make_data(rng: random.Random) -> dict:
         "key": rng.choice(["name", "age", "missing", "first"]),
         "idx": rng.choice([0, 1, -1, 7]),
         "pname": rng.choice(PARTIAL_NAMES),
+        "slugs": {"a": "name", "b": "a", "name": "tags", "alice": "age"},
+        "sa": rng.choice(["a", "b", "zz"]),
         "kobj": {"__liquid__": rng.choice(["name", "age", "tags", "missing", "size", "first", "last", "size", "first", "last"])},
         "iobj": {"__liquid__": rng.choice([0, 1, -1, 5])},
         **({} if rng.random() < 0.5 else {
@@ -107,7 +109,9 @@ class ProgGen:
         if self.locals and r.random() < 0.3:
             return r.choice(self.locals)
         if r.random() < 0.14:
-            return r.choice(["user[kobj]", "h[kobj]", "nums[kobj]", "user.tags[kobj]", "products[kobj]", "h.list[kobj]",
+            return r.choice(["products[nums[idx]].title", "nested[nums[1]][0]", "user[slugs[sa]]", "words[nums[nums[1]]]",
+                             "h[slugs[user[key]]]", "user[slugs[slugs.b]]", "products[h.list[nums[iobj]]].title",
+                             "user[kobj]", "h[kobj]", "nums[kobj]", "user.tags[kobj]", "products[kobj]", "h.list[kobj]",
                              "words[kobj]", "nested[kobj]", "products[iobj].title", "nums[iobj]", "user.tags[iobj]", "words[iobj]",
                              "cfgd.items", "shared.list", "cfgd.items[0]", "shared.n", "cfgd.k",
                              "products[idx].title", "user[key]", "user.tags[n]", "h[key]", "products[n].tags[idx]",
@@ -275,6 +279,11 @@ class ProgGen:
         if c < 0.55:
             return self.primitive()
         op = r.choice(["==", "!=", "<>", "<", ">", "<=", ">=", "contains", "in"])
+        if r.random() < 0.06:   # the same (possibly unorderable) operand on both sides
+            x = r.choice(["nothing", "ghost", "user.tags", "h", "nums", "user", "products", "nested", "flag", "s", "n",
+                          "(1..3)", "empty", "blank", "user.ghost"])
+            y = x if r.random() < 0.7 else r.choice(["nothing", "ghost", "nil"])
+            return f"{x} {op} {y}"
         if r.random() < 0.12:
             return f"{self.primitive()} {op} {self.primitive()}"
         if op in ("<", ">", "<=", ">="):
